@@ -16,6 +16,12 @@ Proof. reflexivity. Qed.
 Lemma base_url_spec cfg : base_url cfg = spec_base cfg.
 Proof. destruct cfg; reflexivity. Qed.
 
+(* the closed form of what the model's time formatter prints for the generated layout *)
+Definition iso8601 (unix : Z) : str :=
+  let c := civil_of_unix unix in
+  zpad 4 (c_year c) ++ lit "-" ++ zpad 2 (c_month c) ++ lit "-" ++ zpad 2 (c_day c) ++ lit "T" ++
+  zpad 2 (c_hour c) ++ lit ":" ++ zpad 2 (c_min c) ++ lit ":" ++ zpad 2 (c_sec c) ++ lit "Z".
+
 Lemma fmt_time_iso t : fmt_time "2006-01-02T15:04:05Z" t = iso8601 t.
 Proof. reflexivity. Qed.
 
